@@ -16,9 +16,11 @@ import (
 	"github.com/plgd-dev/go-coap/v3/message"
 	"github.com/plgd-dev/go-coap/v3/message/codes"
 	"github.com/plgd-dev/go-coap/v3/net/monitor/inactivity"
+	tcpclient "github.com/plgd-dev/go-coap/v3/tcp/client"
 	udpclient "github.com/plgd-dev/go-coap/v3/udp/client"
 
 	"verifharness/internal/conns"
+	"verifharness/internal/hooks"
 	"verifharness/internal/memnet"
 	"verifharness/internal/rec"
 )
@@ -107,10 +109,10 @@ func runBare(st Stim) Trace {
 			if e.G >= 1 && e.G <= len(pings) {
 				p = pings[e.G-1]
 			}
-			run := p != nil && !p.cancelled
-			if run {
-				p.cancelled = true // an answered ping is finished
-			}
+			// the callback is delivered even if the keep-alive has cancelled (superseded) that ping in the meantime: on a
+			// real connection the reader may already have taken the handler out of the table when the tick cancels it,
+			// so a late answer to an earlier ping does reach the callback - and must not be credited to a later ping
+			run := p != nil
 			mu.Unlock()
 			if run {
 				p.cb()
@@ -207,6 +209,95 @@ func runUDP(st Stim) Trace {
 	return tr
 }
 
+// runTCP: the same history on a real tcp client connection (scripted stream): messages arrive as frames (requests,
+// responses and signals nobody waits for, the peer's Ping), keep-alive pings are Ping signals answered by Pong.
+func runTCP(st Stim) Trace {
+	tr := Trace{Mode: "tcp", T: st.T, P: st.P, KeepAlive: st.KeepAlive, MaxRetries: st.MaxRetries, Events: st.Events, Obs: []Obs{}}
+	vnow.Store(0)
+	var closes atomic.Int64
+	onInactive := func(cc *tcpclient.Conn) { closes.Add(1); _ = cc.Close() }
+	var mon tcpclient.InactivityMonitor
+	if st.KeepAlive {
+		ka := inactivity.NewKeepAlive(uint32(st.MaxRetries), onInactive, func(cc *tcpclient.Conn, receivePong func()) (func(), error) {
+			return cc.AsyncPing(receivePong)
+		})
+		mon = inactivity.New(time.Duration(st.P)*time.Second, ka.OnInactive)
+	} else {
+		mon = inactivity.New(time.Duration(st.P)*time.Second, onInactive)
+	}
+	t := conns.NewTCP(nil, tcpclient.WithInactivityMonitor(mon))
+	defer t.Close()
+	pingToks := [][]byte{}
+	off := 0
+	scan := func() {
+		b := t.Stream.Written(off)
+		frames, rest := conns.Frames(b)
+		off += len(b) - len(rest)
+		for _, f := range frames {
+			if f.Code == int(codes.Ping) {
+				pingToks = append(pingToks, append([]byte(nil), f.Token...))
+			}
+		}
+	}
+	n := 0
+	wasClosed := false
+	for _, e := range st.Events {
+		if wasClosed {
+			tr.Obs = append(tr.Obs, Obs{Closed: true, Pings: len(pingToks)})
+			continue
+		}
+		vnow.Store(int64(e.T))
+		switch e.E {
+		case "recv":
+			n++
+			tok := []byte{0x7A, byte(n)}
+			switch e.G { // every kind of message is "a message received from the peer"
+			case 1:
+				t.Feed(conns.Frame(int(codes.POST), tok, message.Options{{ID: message.URIPath, Value: []byte("x")}}, []byte("p")))
+			case 2:
+				t.Feed(conns.Frame(int(codes.Ping), tok, nil, nil)) // the peer's ping
+			case 3:
+				t.Feed(conns.Frame(int(codes.Pong), tok, nil, nil)) // a pong nobody waits for
+			case 4:
+				t.Feed(conns.Frame(int(codes.CSM), tok, nil, nil))
+			case 5:
+				t.Feed(conns.Frame(int(codes.Content), tok, nil, []byte("r"))) // a response nobody waits for
+			default:
+				t.Feed(conns.Frame(int(codes.GET), tok, message.Options{{ID: message.URIPath, Value: []byte("x")}}, nil))
+			}
+		case "pong":
+			scan()
+			if e.G >= 1 && e.G <= len(pingToks) {
+				t.Feed(conns.Frame(int(codes.Pong), pingToks[e.G-1], nil, nil))
+			}
+		case "tick":
+			t.CC.CheckExpirations(clock())
+		}
+		closed := false
+		if closes.Load() > 0 { // the monitor has decided: the reader goroutine completes the close a moment later
+			hooks.WaitFor(conns.WD, func() bool {
+				select {
+				case <-t.CC.Done():
+					return true
+				default:
+					return false
+				}
+			})
+		}
+		select {
+		case <-t.CC.Done():
+			closed = true
+		default:
+			t.Settle()
+		}
+		scan()
+		wasClosed = closed
+		tr.Obs = append(tr.Obs, Obs{Closed: closed, Pings: len(pingToks)})
+	}
+	tr.Closes = int(closes.Load())
+	return tr
+}
+
 // Run replays every stimulus on the bare objects and on a real udp connection (sequentially: one virtual clock).
 func Run(stimPath, out string) {
 	f := clock
@@ -228,5 +319,6 @@ func Run(stimPath, out string) {
 		}
 		wr.Put(runBare(st))
 		wr.Put(runUDP(st))
+		wr.Put(runTCP(st))
 	}
 }
